@@ -63,7 +63,7 @@ fn draw_names(rng: &mut Rng, n: usize, prefix_names: bool, long_names: bool) -> 
     for b in BUILTINS {
         seen.insert(b.to_string());
     }
-    for r in ["T", "K", "L0", "L1", "L2", "L3", "L4", "key"] {
+    for r in ["T", "K", "L0", "L1", "L2", "L3", "L4", "key", "Sibling", "Readonly"] {
         seen.insert(r.to_string());
     }
     let mut out = vec![];
@@ -222,6 +222,26 @@ fn draw_body(rng: &mut Rng, deps: &[String]) -> String {
     }
 }
 
+/// Replace the identifier `from` by `to` where it stands as a whole word.
+fn replace_word(text: &str, from: &str, to: &str) -> String {
+    let mut out = String::new();
+    let mut rest = text;
+    let is_word = |c: char| c.is_alphanumeric() || c == '_' || c == '$';
+    while let Some(i) = rest.find(from) {
+        let before = rest[..i].chars().next_back();
+        let after = rest[i + from.len()..].chars().next();
+        out.push_str(&rest[..i]);
+        if before.map(is_word).unwrap_or(false) || after.map(is_word).unwrap_or(false) {
+            out.push_str(from);
+        } else {
+            out.push_str(to);
+        }
+        rest = &rest[i + from.len()..];
+    }
+    out.push_str(rest);
+    out
+}
+
 pub struct Universe {
     pub table: Table,
     /// exportable types ops may name
@@ -325,6 +345,20 @@ pub fn draw_universe(rng: &mut Rng, sw: &Swarm, n_syn: usize) -> Universe {
         let dep_names: Vec<String> = deps.iter().map(|d| table.syn[*d].ident.clone()).collect();
         table.syn[slot].body = draw_body(rng, &dep_names);
         table.syn[slot].deps = deps;
+    }
+    // a type documented with a column-0 `export type Sibling ...` example gets a real file-mate
+    // called Sibling
+    if let Some(&doc_slot) = exportable.iter().find(|s| **s % 8 == 7) {
+        let file = table.syn[doc_slot].path.clone();
+        if let Some(&mate) = exportable.iter().find(|s| **s != doc_slot && table.syn[**s].path == file) {
+            let old = table.syn[mate].ident.clone();
+            for s in exportable.iter() {
+                // rename in every body that mentions it (names are whole words in bodies)
+                let body = table.syn[*s].body.clone();
+                table.syn[*s].body = replace_word(&body, &old, "Sibling");
+            }
+            table.syn[mate].ident = "Sibling".into();
+        }
     }
     if sw.der {
         let mut hs: Vec<usize> = (0..corpus::DER_HANDLES).collect();
